@@ -46,7 +46,9 @@ def run_prop(args, prop, repo, reg, timeout_ms, known, seed):
     for kf in known.get("known", []):
         if kf["property"] == prop:
             kmap.setdefault(kf["clause"], []).append(kf)
-    payload = [(k, n, args.repo, timeout_ms, kmap) for k, n in jobs]
+    if getattr(args, "instance", None) is not None:
+        jobs = [j for j in jobs if len(j) > 2 and j[2] == args.instance]
+    payload = [(j[0], j[1], args.repo, timeout_ms, kmap) + tuple(j[2:]) for j in jobs]
     payload += [("bounded", n, args.repo, timeout_ms, kmap) for n, f in bounded if args.tier == "thorough" or True]
     if args.jobs > 1 and len(payload) > 1:
         with mp.Pool(min(args.jobs, len(payload))) as pool:
@@ -73,6 +75,18 @@ def summarize(args, prop, results, reg, known, kmap, seed, wall, timeout_ms):
             b = r.get("bounded", {})
             b["name"] = r["name"]
             bounded_out.append(b)
+            kc = b.get("known_class")
+            if kc and kc.get("count", 0) > 0:
+                listed = [k for k in known.get("known", []) if k.get("id") == kc["id"] and k.get("property") == prop]
+                if listed:
+                    print("KNOWN-FINDING: property=%s %s [%s; %d inputs in the explored bound, e.g. %r]"
+                          % (prop, listed[0]["what"], r["name"], kc["count"], kc.get("samples", [])[:3]))
+                    b["known_finding"] = listed[0]["id"]
+                else:
+                    violations.append(dict(name=r["name"], clause="bounded", unit=r["name"],
+                                           witness=dict(inputs=kc.get("samples")), model=None,
+                                           meta=dict(text="bounded stand-in found counterexamples (class %s)" % kc["id"]),
+                                           bounded=True))
             for v in b.get("violations", []):
                 violations.append(dict(name=r["name"], clause="bounded", unit=r["name"], witness=v, model=None,
                                        meta=dict(text="bounded stand-in found a counterexample"), bounded=True))
